@@ -52,8 +52,11 @@ class Ctx:
 
     # -- registration -----------------------------------------------------
     def rule(self, rid: str, text: str, floor: int = 1) -> None:
+        """``floor`` is the instance count confirmed by hand on the pinned tree.  The run fails (exit 2) when a rule
+        analyses fewer than 60% of it: a rule that matches (almost) nothing would pass vacuously, but a tree that merely
+        lost or merged a few instances must not trip the alarm."""
         self.rules_applied[rid] = text
-        self.floors[rid] = floor
+        self.floors[rid] = max(1, int(floor * 0.6))
 
     def ok(self, rule: str, construct: str, what: str = "", where: str = "", nontrivial: bool = True):
         self.obligations.append(Obligation(rule, construct, True, what, where, None, nontrivial))
